@@ -445,11 +445,12 @@ func ZZVerifC12() {
 	}
 	var bounds mcrt.Bounds
 	bounds[mcrt.Crash] = 1
-	total := 1
+	bounds[mcrt.Order] = 1 // the crash may follow one map iteration (manifests, layers to prune) in a non-default order
+	total := 2
 	budget := 100 * gotime.Second
 	if thorough {
 		bounds[mcrt.Preempt] = 1 // crash under one non-default schedule of the download goroutines
-		total = 2
+		total = 3
 		budget = 18 * gotime.Minute
 	}
 	mk := func(n string) (func(), any, string) {
